@@ -163,9 +163,24 @@ func (m *C11Monitor) AfterPass(r *Runner, pv *PassView) error {
 			inPhase[k] = true
 		}
 		failedDryRun := ""
+		dryRunOK := map[kubesim.Key]bool{}
 		for _, c := range pv.Calls {
 			if c.Actor != "pko" || !inPhase[c.Key] {
 				continue
+			}
+			// "unless every object of that phase passed preflight": whether the API server accepts an object is a fact about
+			// the cluster now (admission, quota, the object's current state), so the acceptance has to come from this pass
+			if c.DryRun && c.Err == "" && c.IsWrite() {
+				dryRunOK[c.Key] = true
+			}
+			if c.IsWrite() && !c.DryRun && c.Verb != "delete" {
+				for _, k := range ph.Keys {
+					if !dryRunOK[k] {
+						r.Labels["c11-write-without-dry-run"] = true
+						return Violf("C11", "write-without-dry-run-in-pass",
+							"pass %d: PKO issued %s on %s of phase %q although no server-side dry run of %s was accepted in this pass", pv.P.ID, c.Verb, c.Key, ph.Name, k)
+					}
+				}
 			}
 			if c.DryRun && c.Err != "" && failedDryRun == "" {
 				failedDryRun = c.Key.String() + ": " + trunc(c.Err, 80)
